@@ -291,7 +291,7 @@ impl Selector {
         for component in it: &self.components
             invariant //@w
                 !result.inline, //@w
-                result.id == sat16(comps_counts(self.components@, it.index@).0 as int), result.class == sat16(comps_counts(self.components@, it.index@).1 as int), result.typ == sat16(comps_counts(self.components@, it.index@).2 as int), //@w
+                result.id == sat16(comps_counts(self.components@, it.index@).0 as int), result.class == sat16(comps_counts(self.components@, it.index@).1 as int), result.typ == sat16(comps_counts(self.components@, it.index@).2 as int), //@w @C19 @C20 #specificity_counts_ids_classes_elements
         {
             proof { //@w
                 let k = it.index@; //@w
